@@ -238,6 +238,11 @@ def run_c17(out, tier, rng):
                 w.writeframes(bytes((i * 7 + n) % 251 for i in range(2 * n)))
         sets.append([f1, f2])
         sets.append([f2, f1])
+        # a file given through a symbolic link whose name differs from its target's: it is imported under the name
+        # the caller gave
+        lnk = os.path.join(mixed_dir, "alert.wav")
+        os.symlink(f1, lnk)
+        sets.append([lnk])
         for audio in sets:
             r = child({"op": "import", "base": base, "dest": "absent", "flag": "default", "fault": None, "audio": audio, "inspect": True})
             spec = r["spec"]
@@ -277,6 +282,13 @@ def run_c17(out, tier, rng):
             out.violations.append({"oracle": "import + authored PlayWav + save completes", "spec": desc(r["spec"]), "error": r.get("harness_error") or r.get("exception")})
         elif sc["error"] or sc["got"] != sc["want"]:
             out.violations.append({"oracle": "an authored PlayWav keeps its explicit duration (0 ms included) and gets the file's duration only when it has none", "spec": desc(r["spec"]), "got": sc})
+        r = child({"op": "scenario_custom_folder", "base": base, "dest": "absent", "flag": "default", "fault": None})
+        sc = r.get("scenario")
+        out.case("c17:history-custom-folder", json.dumps(desc(r["spec"]), sort_keys=True).encode(), sample={"spec": desc(r["spec"]), "result": sc})
+        if sc is None:
+            out.violations.append({"oracle": "a map with a sound stored under a folder of the author's choosing saves", "spec": desc(r["spec"]), "error": r.get("harness_error") or r.get("exception")})
+        elif sc["error"] or sc["got"] != sc["want"]:
+            out.violations.append({"oracle": "a PlayWav without explicit duration gets the file's true duration wherever in the archive the sound is stored", "spec": desc(r["spec"]), "got": sc})
         oggs = [a for a in audio_files() if a.lower().endswith(".ogg")]
         if oggs:
             for b2 in archives():
